@@ -290,3 +290,21 @@ func retErr(r *ssa.Return) ssa.Value {
 	}
 	return r.Results[len(r.Results)-1]
 }
+
+// sameFn compares functions up to generic instantiation.
+func sameFn(a, b *ssa.Function) bool {
+	if a == nil || b == nil {
+		return false
+	}
+	if a == b {
+		return true
+	}
+	oa, ob := a, b
+	if o := a.Origin(); o != nil {
+		oa = o
+	}
+	if o := b.Origin(); o != nil {
+		ob = o
+	}
+	return oa == ob
+}
